@@ -460,6 +460,9 @@ SHORT_SETS = {
     "annotated": [],                                                     # the introns of T1 only
     "plus-skip": [(E["e1"][1] + 1, E["e2"][0] - 1)],                     # + the intron that skips the micro-exon
     "plus-shifted": [(1201, 1604), (1797, 2100), (2705, 2850), (2895, 3100)],   # + 4-bp shifted variants and a pair that looks like a skipped exon
+    # + for every intron of T1 a short read that uses a donor 44 bp further downstream and carries a 4-bp DELETION 10 bases behind the
+    # annotated donor (a deletion is no junction: only the N gaps of the short reads are)
+    "with-deletions": [],
 }
 
 
@@ -478,6 +481,18 @@ def illumina_e2e_case(args):
     shutil.rmtree(dd, ignore_errors=True)
     seqs = syn.genome_sequences(w)
     sreads = []
+    if sset == "with-deletions":
+        for k, (a, b) in enumerate(t1_introns):
+            if b - a > 150:
+                short.append((a + 44, b))
+                W_ = __import__("vlib.worlds", fromlist=["x"])
+                W_.add_sites_for_blocks(w, "chr1", [[a - 40, a + 43], [b + 1, b + 40]], "+")
+                for rep in range(2):
+                    sreads.append({"name": "sd%d_%d" % (k, rep), "chr": "chr1", "blocks": [[a - 40 - rep, a + 43], [b + 1, b + 40 + rep]],
+                                   "edits": [[0, 50 + rep, "D", 4]]})
+        W_.dedup_sites(w)
+        seqs = syn.genome_sequences(w)
+        short = t1_introns + [x for x in short if x not in t1_introns]
     for k, (a, b) in enumerate(short):
         for rep in range(2):
             sreads.append({"name": "s%d_%d" % (k, rep), "chr": "chr1", "blocks": [[a - 40 - rep, a - 1], [b + 1, b + 40 + rep]]})
